@@ -410,9 +410,11 @@ UpdRet(m, e, s2) ==
                    \* C10: after a failed pause the call must report the interruption
                    ff == ViolIf(ee, m.failedPause /\ outcome \in {"ok"} /\ op \in {"run", "resume"}, "C10:not-reported")
                    \* C05: num_events present for every stream that has events
-                   gg == ViolIf(ff, \E o \in 1..m.nruns : \E sn \in Streams :
-                                      m.runs[o].stopped = 1 /\ m.runs[o].maxseq[sn] > 0 /\ m.runs[o].nev[sn] = 99,
-                                "C05:num_events-missing")
+                   Missing(kd) == \E o \in 1..m.nruns : \E sn \in Streams :
+                                      StreamClass(sn) = kd /\ m.runs[o].stopped = 1 /\ m.runs[o].maxseq[sn] > 0 /\ m.runs[o].nev[sn] = 99
+                   gg == ViolIf(ViolIf(ViolIf(ff, Missing("bundle"), "C05:num_events-missing"),
+                                       Missing("monitor"), "C05:num_events-missing:monitor"),
+                                Missing("interruptions"), "C05:num_events-missing:interruptions")
                IN gg
             ELSE m2
   IN [m3 EXCEPT !.reqs = IF Len(@) > 0 /\ @[Len(@)].out = "" /\ @[Len(@)].kind \in {"call:resume", "call:abort", "call:stop", "call:halt"}
@@ -521,7 +523,8 @@ C03Tags == {"C03:unexpected-error", "C03:data-point-lost", "C03:extra-data-point
 C04Tags == {"C04:replay-mismatch", "C04:unexpected-replay"}
 C05Tags == {"C05:gap:bundle", "C05:gap:monitor", "C05:gap:interruptions",
             "C05:duplicate-seq:bundle", "C05:duplicate-seq:monitor", "C05:duplicate-seq:interruptions",
-            "C05:num_events:bundle", "C05:num_events:monitor", "C05:num_events:interruptions", "C05:num_events-missing"}
+            "C05:num_events:bundle", "C05:num_events:monitor", "C05:num_events:interruptions", "C05:num_events-missing", "C05:num_events-missing:monitor",
+            "C05:num_events-missing:interruptions"}
 C06Tags == {"C06:stage-unbalanced", "C06:moved-not-stopped", "C06:subscription-left"}
 C07Settled == {"C07:not-settled:running", "C07:not-settled:pausing", "C07:not-settled:suspending", "C07:not-settled:halting",
                "C07:not-settled:stopping", "C07:not-settled:aborting", "C07:not-settled:panicked"}
